@@ -18,7 +18,7 @@ ORDINARY = (ValueError, TypeError, IndexError, KeyError, NotImplementedError, Ru
 # ------------------------------------------------------------------ generation (parent process)
 _WEIGHTS = [("cartesian", 2), ("argcomb", 2), ("field", 2), ("withfield", 2), ("withfield_b", 3), ("rt", 5), ("ufunc", 3), ("addmasked", 4), ("filter", 3), ("num", 3),
             ("flatten", 5), ("localindex", 5), ("pad", 8), ("fillnone", 10), ("isnone", 8), ("mask", 7), ("singletons", 3), ("firsts", 3),
-            ("comb", 3), ("reduce", 6), ("sort", 4), ("concatperm", 3), ("bcperm", 3), ("concat0", 2), ("concat2", 5), ("concat1", 3), ("zip", 3), ("unflatten", 3),
+            ("comb", 3), ("reduce", 6), ("sort", 4), ("concatperm", 3), ("bcperm", 3), ("slice", 8), ("sortbyarg", 3), ("concat0", 2), ("concat2", 5), ("concat1", 3), ("zip", 3), ("unflatten", 3),
             ("same", 2), ("maysame", 2)]
 _OPS = [name for name, w in _WEIGHTS for _ in range(w)]
 
@@ -26,6 +26,22 @@ _OPS = [name for name, w in _WEIGHTS for _ in range(w)]
 def _rand_op(rng):
     kind = rng.choice(_OPS)
     ax = rng.choice([-3, -2, -1, 0, 1, 2])
+    if kind == "slice":
+        nb = 99999
+
+        def item():
+            r = rng.random()
+            if r < 0.25:
+                return {"k": "at", "i": rng.randint(-3, 3)}
+            if r < 0.7:
+                return {"k": "range", "a": rng.choice([nb, -2, 0, 1, 2]), "b": rng.choice([nb, -1, 2, 4]), "s": rng.choice([nb, 1, 2, -1])}
+            if r < 0.85:
+                return {"k": "arr", "is": [rng.randint(-2, 2) for _ in range(rng.randint(0, 3))]}
+            if r < 0.92:
+                return {"k": "newaxis"}
+            return {"k": "ellipsis"}
+        # how an integer array is handed to __getitem__: NumPy array, Python list or ak.Array (three routes through the Python layer)
+        return "slice", {"items": [item() for _ in range(rng.randint(1, 2))], "_how": rng.choice(["np", "list", "ak"])}
     if kind == "cartesian":
         return "cartesian", {"axis": 1}
     if kind == "argcomb":
@@ -62,7 +78,7 @@ def _rand_op(rng):
     if kind == "sort":
         return rng.choice(["sort", "argsort"]), {"axis": ax, "asc": rng.randint(0, 1), "stable": 1}
     if kind == "same":
-        return "same", {"o": rng.choice(["packed", "copy"])}
+        return "same", {"o": rng.choice(["packed", "copy", "astype_f8", "layout", "getall"])}
     if kind == "maysame":
         return "maysame", {"o": rng.choice(["to_regular", "from_regular"])}
     if kind == "concat2":
@@ -105,6 +121,24 @@ def _leaf_is_bool(T):
 
 
 def _call(ak, np, op, a, A):
+    if op == "slice":
+        nb = 99999
+
+        def conv(it):
+            if it["k"] == "at":
+                return it["i"]
+            if it["k"] == "range":
+                return slice(*[None if it[q] == nb else it[q] for q in ("a", "b", "s")])
+            if it["k"] == "arr":
+                arr = np.array(it["is"], dtype=np.int64)
+                if a.get("_how") == "list" and len(it["is"]):
+                    return list(it["is"])
+                return ak.Array(arr) if a.get("_how") == "ak" else arr
+            return np.newaxis if it["k"] == "newaxis" else Ellipsis
+        items = [conv(it) for it in a["items"]]
+        return A[items[0]] if len(items) == 1 else A[tuple(items)]
+    if op == "sortbyarg":
+        return A[ak.argsort(A, axis=1)]
     if op == "num":
         return ak.num(A, axis=a["axis"])
     if op == "flatten":
@@ -181,7 +215,8 @@ def _call(ak, np, op, a, A):
     if op == "rt_iter":
         return ak.from_iter(ak.to_list(A))
     if op == "same":
-        return {"packed": ak.packed, "copy": ak.copy}[a["o"]](A)
+        return {"packed": ak.packed, "copy": ak.copy, "astype_f8": lambda x: ak.values_astype(x, np.float64),
+                "layout": lambda x: ak.Array(ak.to_layout(x)), "getall": lambda x: x[:]}[a["o"]](A)
     if op == "maysame":
         return (ak.to_regular if a["o"] == "to_regular" else ak.from_regular)(A, axis=1)
     raise KeyError(op)
@@ -218,6 +253,8 @@ def h_chain(case, pick, st, stats):
             break                                    # outside the model's domain (strings, unions, big numbers): the chain stops
         if op in ("field", "withfield") and ('"%s":' % a["key"] not in ty and not (a["key"].isdigit() and "(" in ty)):
             continue                                 # no such field anywhere in the type: a different question (KeyError)
+        if op == "sortbyarg" and not re.match(r"^var \* [a-z0-9]+$", ty):
+            continue                                 # the law is stated for lists of numbers only
         if op == "bcperm" and not (len(ak.fields(A)) >= 2 and not ak.fields(A)[0].isdigit()):
             continue                                 # needs named records with two or more fields somewhere below the top
         if op == "concatperm" and not (ty.startswith("{") and len(ak.fields(A)) >= 2):
